@@ -442,7 +442,7 @@ func (r *run) all(mode int) {
 			}
 			if k1, _ := compareSeq(&whole, &o); k1 != "" {
 				if k2, d2 := compareSeq(&st, &o); k2 != "" {
-					r.fail(fmt.Sprintf("api=%s cut-in=%s kind=%s", api, ctx, k1),
+					r.fail(fmt.Sprintf("api=%s cut-in=%s vs=ReadStream kind=%s", api, ctx, k2),
 						"delivered as "+showCuts(src, cuts)+": differs from ReadStream on the same pieces and from ReadString: "+d2)
 				} else {
 					res.Hit("masked:push-each-same-as-ReadStream")
@@ -463,7 +463,7 @@ func (r *run) all(mode int) {
 				res.Hit("masked:stream-one-pos-by-ReadOne-pos")
 			case o.endPos != t.forms[0].end && k < t.forms[0].end && kind == "":
 				// the position is only comparable when the cut lies inside the first form or before it
-				r.fail(fmt.Sprintf("api=ReadStream(one) cut-in=%s check=pos form=%s delta=%+d", ctx, t.forms[0].class, o.endPos-t.forms[0].end),
+				r.fail(fmt.Sprintf("api=ReadStream(one) cut-in=%s check=pos form=%s delta=%s", ctx, t.forms[0].class, delta(o.endPos-t.forms[0].end)),
 					fmt.Sprintf("delivered as %s: position %d after the first form, it ends at %d", showCuts(src, cuts), o.endPos, t.forms[0].end))
 			}
 		}
@@ -592,6 +592,15 @@ func (r *run) culprit() string {
 		}
 		return false
 	}
+	refused := func(k tok, text string) bool {
+		o := readString(text, r.c)
+		return o.err != nil
+	}
+	for _, k := range r.t.toks {
+		if refused(k, k.text+" ") {
+			return k.class
+		}
+	}
 	for _, k := range r.t.toks {
 		if bad(k, k.text+" ") {
 			return k.class
@@ -642,7 +651,7 @@ func (r *run) formAtATime(whole []*cv, badForm map[int]bool) {
 					r.readOnePos0 = pos
 				}
 				if pos != f.end {
-					r.fail(fmt.Sprintf("api=ReadOne check=pos form=%s delta=%+d", f.class, pos-f.end),
+					r.fail(fmt.Sprintf("api=ReadOne check=pos form=%s delta=%s", f.class, delta(pos-f.end)),
 						fmt.Sprintf("ReadOne at offset %d returned %s and position %d; the form ends at %d", off, obj, pos, f.end))
 				}
 			}
@@ -682,7 +691,7 @@ func (r *run) formAtATime(whole []*cv, badForm map[int]bool) {
 			}
 			r.res.Hit("check:pos")
 			if !ok {
-				r.fail(fmt.Sprintf("api=%s check=pos form=%s delta=%+d", name, f.class, rel-(lo-off)),
+				r.fail(fmt.Sprintf("api=%s check=pos form=%s delta=%s", name, f.class, delta(rel-(lo-off))),
 					fmt.Sprintf("on %q returned %s and position %d; the form ends at %d", src[off:], obj, rel, lo-off))
 			}
 		}
@@ -763,6 +772,17 @@ func (r *run) truncations() {
 				fmt.Sprintf("ReadOne on %q from offset %d %s", prefix, off, what))
 		}
 	}
+}
+
+// delta renders a position error: exact when it is one byte, else only its direction.
+func delta(d int) string {
+	switch {
+	case d == 1 || d == -1:
+		return fmt.Sprintf("%+d", d)
+	case d < 0:
+		return "short"
+	}
+	return "long"
 }
 
 func sortedKeys(m map[string]int) []string {
